@@ -292,6 +292,38 @@ def check_sequence(case):
     return nt and len(vals) > 1, sorted(labels | {"sequence"} | ({"same-payload-different-type"} if twins else set()))
 
 
+def counter_cases(tier, seed):
+    """a counter stored through the serializer and rewritten in place by the server: memcached's decr pads a number that got
+    shorter with blanks up to the old length (10 -> '9 ', 1000 -> '999 ')"""
+    cfgs = [("pickle", 0), ("pickle", 5), ("pickle", None), ("default-compressed",), ("module-pickle",), ("module-compressed",), ("legacy-pm",), ("compressed", "zlib", 400, ("pickle", 2)), ("versioned", 2)]
+    for cfg in cfgs:
+        for start in (10, 100, 1000, 10 ** 19, 2 ** 64 - 1, 7, 1):
+            for delta in (1, start // 2 + 1, start):
+                yield (cfg, start, delta)
+
+
+def check_counter(case):
+    cfg, start, delta = case
+    if cfg[0] == "versioned":
+        return False, ["n/a"]            # (nothing is stored as a bare number there)
+    sd = make_serde(cfg)
+    payload, flags = sd.serialize("key", start)
+    w = wire(payload)
+    if not w.isdigit():
+        return False, ["not-stored-as-a-number"]
+    new = max(0, start - delta)
+    rendered = b"%d" % new
+    rewritten = rendered + b" " * max(0, len(w) - len(rendered))
+    what = "%r: %d stored as %r (flags %d), decremented by %d, the server now holds %r" % (cfg, start, w, flags, delta, rewritten)
+    try:
+        back = sd.deserialize("key", rewritten, flags)
+    except Exception as e:  # noqa: BLE001
+        raise Violation(["counter", "deserialize-raises", type(e).__name__], "deserialize raised %r: %s" % (e, what))
+    if type(back) is not int or back != new:
+        raise Violation(["counter", "value"], "read back as %r (%s), the counter is %d: %s" % (back, type(back).__name__, new, what))
+    return len(rewritten) > len(rendered), ["counter", "padded" if len(rewritten) > len(rendered) else "same-length"]
+
+
 def check_cross(case):
     """an item stored through one CompressedSerde is read through another one with the same codec and inner serializer but
     another threshold (or by the inner serializer's flags alone when it was stored plain): what is read does not depend on
@@ -574,6 +606,7 @@ def sequence_strategy(tier):
 
 PARTS = [
     Part("grid", "enum", check, cases=grid_cases, exhaustive=False),
+    Part("counters-rewritten-by-the-server", "enum", check_counter, cases=counter_cases, exhaustive=True),
     Part("written-by-one-read-by-another", "enum", check_cross, cases=cross_cases),
     Part("random-writer-and-reader", "hyp", check_cross, strategy=cross_strategy,
          examples={"quick": 300, "thorough": 20000}, shards={"quick": 4, "thorough": 16}),
